@@ -51,8 +51,41 @@ class Canon(ast.NodeTransformer):
             return copy.deepcopy(self.subst[node.id])
         return node
 
+    def _ctor_field(self, node):
+        """Cls(a, b, ...).prop  ->  the constructor argument stored in the field that prop returns"""
+        call = node.value
+        if not (isinstance(call, ast.Call) and isinstance(call.func, ast.Name) and call.func.id in self.prog.classes):
+            return None
+        cname = call.func.id
+        if not self.prog.is_prop(cname, node.attr):
+            return None
+        r = self.prog.simple_return(cname, node.attr)
+        if r is None or not is_self_attr(r):
+            return None
+        ci, init = self.prog.resolve(cname, '__init__')
+        if init is None:
+            return None
+        stores = [n for n in ast.walk(init) if isinstance(n, (ast.Assign, ast.AnnAssign))
+                  and any(is_self_attr(t, r.attr) for t in (n.targets if isinstance(n, ast.Assign) else [n.target]))]
+        if len(stores) != 1 or not isinstance(stores[0].value, ast.Name):
+            return None
+        params = [a.arg for a in init.args.args][1:]
+        pname = stores[0].value.id
+        if pname not in params:
+            return None
+        i = params.index(pname)
+        if i < len(call.args) and not any(isinstance(a, ast.Starred) for a in call.args[:i + 1]):
+            return copy.deepcopy(call.args[i])
+        for kw in call.keywords:
+            if kw.arg == pname:
+                return copy.deepcopy(kw.value)
+        return None
+
     def visit_Attribute(self, node):
         node = self.generic_visit(node)
+        cf = self._ctor_field(node)
+        if cf is not None:
+            return cf
         recv = self._recv(node)
         if self.cls and recv and self.depth > 0 and self.prog.is_prop(self.cls, node.attr):
             r = self.prog.simple_return(self.cls, node.attr)
